@@ -873,6 +873,8 @@ def np_expand_dims(I, args, kwargs):
     ax = arg(args, kwargs, 1, "axis")
     if a.ndim == 2 and ax == 1:
         return SArr((a.shape[0], 1, a.shape[1]), lambda i, j, k: a.fn(i, k), a.dtype, "ndarray")
+    if a.ndim == 1 and ax == 1:
+        return SArr((a.shape[0], 1), lambda i, j: a.fn(i), a.dtype, "ndarray")
     raise Undecided("expand_dims")
 
 
@@ -943,3 +945,59 @@ def np_nanmean(I, args, kwargs):
         I.ctx.trace.append(Event(None, name, [a], {"axis": 0}, out, getattr(I.ctx, "loop_k", None)))
         return out
     raise Undecided(f"np.{name} with axis={axis} on {a.ndim}-d array")
+
+
+# ----------------------------------------------------------------------------- elementwise real functions (exact over the reals)
+
+def _ew2(I, a, b, f, dtype="real"):
+    if isinstance(a, (SArr, SList)) or isinstance(b, (SArr, SList)):
+        a2 = to_arr(I, a) if isinstance(a, (SArr, SList)) else a
+        b2 = to_arr(I, b) if isinstance(b, (SArr, SList)) else b
+        if isinstance(a2, SArr) and isinstance(b2, SArr):
+            return SArr(a2.shape, lambda *i: f(a2.fn(*i), b2.fn(*i)), dtype, "ndarray")
+        if isinstance(a2, SArr):
+            return SArr(a2.shape, lambda *i: f(a2.fn(*i), b2), dtype, "ndarray")
+        return SArr(b2.shape, lambda *i: f(a2, b2.fn(*i)), dtype, "ndarray")
+    return f(a, b)
+
+
+@lib("numpy.maximum")
+def np_maximum(I, args, kwargs):
+    return _ew2(I, args[0], args[1], lambda x, y: Max(ops.as_real(x), ops.as_real(y)))
+
+
+@lib("numpy.minimum")
+def np_minimum(I, args, kwargs):
+    return _ew2(I, args[0], args[1], lambda x, y: Min(ops.as_real(x), ops.as_real(y)))
+
+
+@lib("numpy.square")
+def np_square(I, args, kwargs):
+    v = args[0]
+    if isinstance(v, SArr):
+        return ops.map_arr(v, lambda x: ops.scalar_arith(I.ctx, "Mult", x, x) if not I.ctx.in_quant else ops.as_real(x) * ops.as_real(x), dtype="real")
+    return ops.scalar_arith(I.ctx, "Mult", v, v)
+
+
+@lib("numpy.where")
+def np_where(I, args, kwargs):
+    if len(args) != 3:
+        raise Undecided("np.where with one argument")
+    c, x, y = args
+    c = to_arr(I, c) if isinstance(c, (SArr, SList)) else c
+    x2 = to_arr(I, x) if isinstance(x, (SArr, SList)) else x
+    y2 = to_arr(I, y) if isinstance(y, (SArr, SList)) else y
+    if isinstance(c, SArr):
+        gx = (lambda *i: x2.fn(*i)) if isinstance(x2, SArr) else (lambda *i: x2)
+        gy = (lambda *i: y2.fn(*i)) if isinstance(y2, SArr) else (lambda *i: y2)
+        return SArr(c.shape, lambda *i: If(c.fn(*i), ops.as_real(gx(*i)), ops.as_real(gy(*i))), "real", "ndarray")
+    return If(I.as_bool(c), x, y)
+
+
+@lib("numpy.finfo")
+def np_finfo(I, args, kwargs):
+    o = Opaque("finfo")
+    from fractions import Fraction
+    o.attrs = {"eps": Fraction(1, 2 ** 52)}
+    USED.add("np.finfo(np.float64).eps == 2**-52 (exact rational)")
+    return o
